@@ -17,7 +17,7 @@ from typing import Any, Dict, List, Optional, Tuple
 from harness import core
 
 GEN_SPECS = ["XsdRegex.tla", "XsdConstraints.tla", "XsdTrees.tla", "XsdGen.tla"]
-FEATURES = ["enc_meta", "enc_set_meta", "uni_esc", "esc_dollar", "lit_bs", "multi", "multi_dotrep", "multi_negset", "multi_esc"]
+FEATURES = ["enc_meta", "enc_set_meta", "uni_esc", "esc_dollar", "lit_bs", "del_char", "multi", "multi_dotrep", "multi_negset", "multi_esc"]
 
 # per (property, tier): how many cores of each family are taken (after stratified seeded shuffling), the wall-clock
 # budget of the R phase, and the value bounds.  The R phase stops taking new scenarios at its deadline; what was
